@@ -74,18 +74,27 @@ func (f *FragmentBuffer) AdvanceTo(messageSequence uint16) {
 // when it returns true it means the fragmentBuffer has inserted and the buffer shouldn't be handled
 // when an error returns it is fatal, and the DTLS connection should be stopped.
 func (f *FragmentBuffer) Push(buf []byte) (isHandshake, isRetransmit bool, err error) {
-	if f.size()+len(buf) >= fragmentBufferMaxSize || f.totalFragmentCount >= fragmentBufferMaxCount {
-		return false, false, dtlserrors.ErrFragmentBufferOverflow
-	}
+	overflow := f.size()+len(buf) >= fragmentBufferMaxSize || f.totalFragmentCount >= fragmentBufferMaxCount
 
 	recordLayerHeader := recordlayer.Header{}
 	if err := recordLayerHeader.Unmarshal(buf); err != nil {
+		if overflow {
+			return false, false, dtlserrors.ErrFragmentBufferOverflow
+		}
+
 		return false, false, err
 	}
 
 	// fragment isn't a handshake, we don't need to handle it
 	if recordLayerHeader.ContentType != protocol.ContentTypeHandshake {
 		return false, false, nil
+	}
+
+	// The limits concern what the buffer holds: handshake fragments. Applied to every record, a full
+	// buffer made the caller drop application data of an established connection as well, for as
+	// long as it stayed full.
+	if overflow {
+		return false, false, dtlserrors.ErrFragmentBufferOverflow
 	}
 
 	headerSize := recordLayerHeader.Size()
